@@ -29,22 +29,27 @@ def findings_table():
 def matrix_table():
     out = []
     for rnd, fn in (("round 1", "MATRIX.json"), ("round 2 (as first measured)", "MATRIX-round2-first.json"), ("round 2 (after strengthening)", "MATRIX-round2.json"),
-                    ("round 3 (as first measured)", "MATRIX-round3-first.json"), ("round 3 (after strengthening)", "MATRIX-round3.json")):
+                    ("round 3 (as first measured)", "MATRIX-round3-first.json"), ("round 3 (after strengthening)", "MATRIX-round3.json"),
+                    ("round 4 (as first measured)", "MATRIX-round4-first.json"), ("round 4 (after strengthening)", "MATRIX-round4.json")):
         p = os.path.join(VERIF, "seeded", fn)
         if not os.path.exists(p):
             continue
         m = json.load(open(p))["results"]
         if rnd.startswith("round 1"):
-            m = {k: v for k, v in m.items() if "-r2" not in k and "-r3" not in k}
+            m = {k: v for k, v in m.items() if "-r2" not in k and "-r3" not in k and "-r4" not in k}
         if rnd.startswith("round 2"):
             m = {k: v for k, v in m.items() if "-r2" in k}
         if rnd.startswith("round 3"):
             m = {k: v for k, v in m.items() if "-r3" in k}
+        if rnd.startswith("round 4"):
+            m = {k: v for k, v in m.items() if "-r4" in k}
         if not m:
             continue
-        own = sum(1 for k, v in m.items() if k[:3] in v["caught_by"])
-        anyc = sum(1 for v in m.values() if v["caught_by"])
-        out.append("**%s**: %d changes, %d caught by at least one check, %d caught by the check of their own property." % (rnd, len(m), anyc, own))
+        live = {k: v for k, v in m.items() if not v.get("retired")}
+        own = sum(1 for k, v in live.items() if k[:3] in v["caught_by"])
+        anyc = sum(1 for v in live.values() if v["caught_by"])
+        out.append("**%s**: %d changes%s, %d caught by at least one check, %d caught by the check of their own property." % (
+            rnd, len(live), (" (+%d retired)" % (len(m) - len(live))) if len(m) != len(live) else "", anyc, own))
         out.append("")
         out.append("| change | what it does (one line) | caught by | rules that fire (own property first) |")
         out.append("|--------|-------------------------|-----------|---------------------------------------|")
@@ -61,7 +66,10 @@ def matrix_table():
             rules = []
             for p_ in sorted(v.get("rules", {}), key=lambda x: (x != k[:3], x)):
                 rules.append("%s: %s" % (p_, ",".join(v["rules"][p_]["rules"])))
-            out.append("| %s | %s | %s | %s |" % (k, summ, ",".join(v["caught_by"]) or "**missed**", "; ".join(rules)[:160]))
+            caught = ",".join(v["caught_by"]) or "**missed**"
+            if v.get("retired") and not v["caught_by"]:
+                caught = "retired (behaviour-preserving since c1dbff4): silent, as required"
+            out.append("| %s | %s | %s | %s |" % (k, summ, caught, "; ".join(rules)[:160]))
         out.append("")
     return "\n".join(out)
 
